@@ -12,7 +12,7 @@ Theorem C09_only_exit0_accepted :
   forall (g : cfg) (cands : list cand) (sch : sched) (x : xst) (w : nat),
   r_win _ (cround g cands sch x) = Some w ->
   c_res (cand_at cands w) = OK /\ c_exit (cand_at cands w) = 0%Z /\ c_timeout (cand_at cands w) = false /\
-  c_changed (cand_at cands w) = true /\ too_large g (cand_at cands w) = false.
+  c_changed (cand_at cands w) = true /\ too_large g (cand_at cands w) = false /\ c_norun (cand_at cands w) = false.
 Proof. exact cround_win_success. Qed.
 
 (* Faults do not block: if no candidate that may end the round (timeout, STOP, ERROR, unchanged
@@ -59,8 +59,8 @@ Proof. exact reduce_extradirs_cap. Qed.
    is the success at position 4, under an adversarial schedule, N = 2. *)
 Example C09_example :
   let g := mkcfg 2 false false None false None 500 20 10 250 in
-  let cs := [mkc OK 3 false true 1; mkc OK (-9) false true 1; mkc EXC 0 false false 0;
-             mkc INVALID 0 false false 0; mkc OK 0 false true 1; mkc OK 0 false true 1] in
+  let cs := [mkc OK 3 false true 1 false; mkc OK (-9) false true 1 false; mkc EXC 0 false false 0 false;
+             mkc INVALID 0 false false 0 false; mkc OK 0 false true 1 false; mkc OK 0 false true 1 false] in
   r_win _ (cround g cs [0;1;1;0;3;1;0;0;1] (xinit 0 0)) = Some 4 /\
   forallb (fun i => forallb (fun j => negb (i <? j) || negb (mayQ g cs i) || negb (isA g cs j)) (seq 0 6)) (seq 0 6) = true.
 Proof. vm_compute. auto. Qed.
